@@ -56,3 +56,7 @@ Fixpoint order_only_cases (i : N) (l : list c19case) : list N :=
   | [] => []
   | c :: t => if order_only c then i :: order_only_cases (N.succ i) t else order_only_cases (N.succ i) t
   end.
+
+(* both lists in one evaluation: indices of [order_only_cases] are shifted by 1000000 *)
+Definition mismatches_and_order_only (i : N) (l : list c19case) : list N :=
+  mismatches i l ++ map (fun k => (k + 1000000)%N) (order_only_cases i l).
